@@ -438,8 +438,8 @@ def partial_clauses(prop):
     return ["clause 4, cousin separation (any two nodes of one depth >= min(sibling, subtree separation) apart in tree "
             "order): false for the faithful model (Example C19_cousins_refuted, C19_cousins_refuted_binary; known "
             "finding K1) and proved only under the shape guard cousin_guard of Spec/PC19.v (C19_cousins_partial): "
-            "fan-out <= 2 everywhere, and for every node with two children [a; b] the walk from a along right-most "
-            "children-with-children reaches a's deepest level and the walk from b along left-most "
+            "every node has at most one child with children, or exactly two children [a; b] such that the walk from a "
+            "along right-most children-with-children reaches a's deepest level and the walk from b along left-most "
             "children-with-children reaches b's deepest level"]
 
 
